@@ -18,7 +18,7 @@ AbsLits == { L(2017, 5, 1, 0, 0, 0, 1), L(2017, 4, 30, 0, 0, 0, 1), L(2016, 2, 2
              L(2000, 2, 29, 0, 0, 0, 1), L(2000, 2, 29, 12, 0, 0, 2), L(2016, 11, 30, 0, 0, 0, 1) }
 (* relative literals: whole local days relative to the controlled clock *)
 R(word, k) == [y |-> 0, m |-> 0, d |-> 0, hh |-> 0, mi |-> 0, ss |-> 0, prec |-> 1, rel |-> k, word |-> word]
-RelLits == { R("today", 0), R("yesterday", -1), R("-2", -2), R("+1", 1) }
+RelLits == { R("today", 0), R("yesterday", -1), R("-2", -2), R("+1", 1), R("-1000", -1000), R("+1000", 1000) }      \* (day offsets of any length)
 Clocks == { Epoch(2017, 5, 1, 12, 0, 0, 0), Epoch(2017, 3, 31, 23, 59, 59, 0), Epoch(2016, 3, 1, 0, 0, 30, 0) }
 Offsets == {0, 10800, 1}          \* zone codes: fixed offsets, and 1 = a zone with daylight saving time (Civil!ZoneOffAt)
 TzName(off) == IF off = 0 THEN "UTC" ELSE IF off = 1 THEN "EST5EDT,M3.2.0,M11.1.0" ELSE "Etc/GMT-3"
@@ -27,8 +27,10 @@ Ops == {"eq", "ne", "gt", "gte", "lt", "lte", "range"}      \* range: the column
 (* the closed interval [a, b] of instants a literal denotes in zone `off` with clock `clk` *)
 Interval(x, off, clk) ==
   IF x.word # "" THEN LET lt == LocalTime(clk, ZoneOffAt(off, clk))
-                          \* (none of the clocks is within two days of a transition: the shifted day has the same offset)
-                          a == Epoch(lt.y, lt.m, lt.d, 0, 0, 0, ZoneOffAt(off, clk)) + x.rel * 86400
+                          \* the local calendar day of the clock, shifted by whole days; midnight of that day under the offset in force on it
+                          \* (none of the shifted days is a transition day)
+                          day == DaysFromCivil(lt.y, lt.m, lt.d) + x.rel
+                          a == day * 86400 - (IF off # 1 THEN off ELSE DstOffAt(day * 86400 + 43200))
                       IN <<a, a + 86399>>
   ELSE LET a == Epoch(x.y, x.m, x.d, x.hh, x.mi, x.ss, ZoneOffOn(off, x.y, x.m, x.d))
        IN <<a, a + (CASE x.prec = 1 -> 86399 [] x.prec = 2 -> 3599 [] x.prec = 3 -> 59 [] OTHER -> 0)>>
